@@ -804,6 +804,14 @@ class SSet(SVal):
     def meth_union(self, cx, o):
         return self.py_or(cx, o)
 
+    def meth_intersection(self, cx, o):
+        if not isinstance(o, SSet):
+            raise Unsupported("set.intersection with a non-set")
+        return self.py_and(cx, o)
+
+    def meth_difference(self, cx, o):
+        return self.py_sub(cx, o)
+
     def meth_add(self, cx, k):
         self.dom = z3.Store(self.dom, self.kt.unwrap(cx, k), z3.BoolVal(True))
         cx.note_write(("set", id(self)), self)
